@@ -49,6 +49,14 @@ class Report:
     def add_tlc(self, name, res, note=None):
         self.states += res.distinct
         self.transitions += res.generated
+        for d in self.tlc_runs:
+            if d["config"] == name:          # shards of one logical run
+                d["distinct"] += res.distinct
+                d["generated"] += res.generated
+                d["depth"] = max(d["depth"], res.depth)
+                d["wall_s"] = round(max(d["wall_s"], res.wall), 2)
+                d["jvms"] = d.get("jvms", 1) + 1
+                return
         d = {"config": name, "distinct": res.distinct, "generated": res.generated,
              "depth": res.depth, "wall_s": round(res.wall, 2)}
         if note:
